@@ -51,6 +51,8 @@ def _always_returns(stmts) -> bool:
         return True
     if isinstance(last, ast.If):
         return _always_returns(last.body) and _always_returns(last.orelse)
+    if isinstance(last, ast.Try) and not last.finalbody and not last.orelse:
+        return _always_returns(last.body) and all(_always_returns(h.body) for h in last.handlers)
     return False
 
 
@@ -81,6 +83,17 @@ def _lower(stmts: list, conv) -> list:
                 out.append(ast.copy_location(ast.If(test=st.test, body=body + _lower(rest, conv) or [ast.copy_location(ast.Pass(), st)], orelse=orelse or [ast.copy_location(ast.Pass(), st)]), st))
                 return out
             raise NotInlinable("return in a branch that does not always return")
+        if isinstance(st, ast.Try) and _contains_return(st) and not st.finalbody and not st.orelse and (i == len(stmts) - 1 or _always_returns([st])):
+            # every way out of the statement is a return / raise: the value is produced inside
+            new_try = copy.copy(st)
+            new_try.body = _lower(st.body, conv) or [ast.copy_location(ast.Pass(), st)]
+            new_try.handlers = []
+            for h in st.handlers:
+                nh = copy.copy(h)
+                nh.body = _lower(h.body, conv) or [ast.copy_location(ast.Pass(), h)]
+                new_try.handlers.append(nh)
+            out.append(new_try)
+            return out
         if isinstance(st, (ast.With, ast.AsyncWith)) and _contains_return(st) and i == len(stmts) - 1:
             # `with cm: ...; return v` in tail position: the value is produced inside the block
             new_with = copy.copy(st)
@@ -313,10 +326,12 @@ class Inliner:
             return False
 
         out = {}
-        for f in funcs:
+        for f in funcs + self._nested_candidates(used_as_value):
             if f.name.startswith("__"):
                 continue
-            if not f.name.startswith("_"):
+            if f.parent is not None:
+                pass  # a closure is private to the function that defines it
+            elif not f.name.startswith("_"):
                 # a module-level function that is not part of the package's public API, or a
                 # method of a private helper class (`_TeardownEntry.invoke`)
                 if f.cls is not None:
@@ -365,6 +380,48 @@ class Inliner:
             out[id(f)] = f
         return out
 
+    def _names_used_as_value(self) -> set:
+        used: set = set()
+        for mod in self.p.modules.values():
+            call_funcs = {id(n.func) for n in ast.walk(mod.tree) if isinstance(n, ast.Call)}
+            for n in ast.walk(mod.tree):
+                if isinstance(n, ast.Attribute) and id(n) not in call_funcs and isinstance(n.ctx, ast.Load):
+                    used.add(n.attr)
+                elif isinstance(n, ast.Name) and id(n) not in call_funcs and isinstance(n.ctx, ast.Load):
+                    used.add(n.id)
+        return used
+
+    def _nested_candidates(self, used_as_value: set, generators: bool = False) -> list:
+        """Closures that are only ever called (never passed around, decorated, rebinding outer
+        variables or recursive) by the function that defines them or by its other closures."""
+        out = []
+        for f in self.p.all_functions():
+            if f.parent is None or f.is_lambda or f.parent.parent is not None:
+                continue
+            if f.decorators or f.is_generator != generators or f.name in used_as_value or f.nested:
+                continue
+            if any(isinstance(n, (ast.Global, ast.Nonlocal)) for n in walk_own(f.node)):
+                continue
+            # the definition must be a plain statement of the parent's body (bound once)
+            if f.node not in f.parent.node.body:
+                continue
+            if sum(1 for n in ast.walk(f.parent.node) if isinstance(n, (ast.FunctionDef, ast.AsyncFunctionDef)) and n.name == f.name) != 1:
+                continue
+            if any(isinstance(n, ast.Name) and n.id == f.name and isinstance(n.ctx, (ast.Store, ast.Del)) for n in ast.walk(f.parent.node)):
+                continue
+            out.append(f)
+        return out
+
+    @staticmethod
+    def _free_names(g: FuncInfo) -> set:
+        bound = set(g.params)
+        for n in walk_own(g.node):
+            if isinstance(n, ast.Name) and isinstance(n.ctx, (ast.Store, ast.Del)):
+                bound.add(n.id)
+            elif isinstance(n, ast.ExceptHandler) and n.name:
+                bound.add(n.name)
+        return {n.id for n in ast.walk(g.node) if isinstance(n, ast.Name) and isinstance(n.ctx, ast.Load)} - bound
+
     @staticmethod
     def _reads_instance_state(f: FuncInfo) -> bool:
         """A guard that looks at the object's state (`self._state`) as opposed to one that only
@@ -383,12 +440,13 @@ class Inliner:
         init_mod = self.p.modules.get("__init__")
         if init_mod is not None:
             exported = set(init_mod.imports)
+        closure_ok = {id(f) for f in self._nested_candidates(self._names_used_as_value(), generators=True)}
         for f in self.p.all_functions():
-            if f.parent is not None or f.is_lambda or not f.is_generator or f.is_async or f.nested:
+            if (f.parent is not None and id(f) not in closure_ok) or f.is_lambda or not f.is_generator or f.is_async or f.nested:
                 continue
             if f.name.startswith("__") or f.decorators:
                 continue
-            if not f.name.startswith("_") and (f.cls is not None or f.name in exported):
+            if f.parent is None and not f.name.startswith("_") and (f.cls is not None or f.name in exported):
                 continue
             a = f.node.args
             if a.vararg or a.kwarg or a.posonlyargs:
@@ -544,6 +602,22 @@ class Inliner:
             if not awaited or g.is_async or not _always_returns(g.node.body) or any(isinstance(n, ast.Return) and n.value is None for n in walk_own(g.node)):
                 raise NotInlinable("await mismatch")
             await_results = True
+        if g.parent is not None:
+            # a closure's free variables must mean the same at the call site: the caller is the
+            # defining function or another closure of it, and binds none of them itself
+            if not (caller is g.parent or caller.parent is g.parent):
+                raise NotInlinable("closure called from another scope")
+            if caller is not g.parent:
+                bound = set(caller.params)
+                for x in walk_own(caller.node):
+                    if isinstance(x, ast.Name) and isinstance(x.ctx, (ast.Store, ast.Del)):
+                        bound.add(x.id)
+                    elif isinstance(x, ast.ExceptHandler) and x.name:
+                        bound.add(x.name)
+                    elif isinstance(x, (ast.FunctionDef, ast.AsyncFunctionDef, ast.ClassDef)):
+                        bound.add(x.name)
+                if self._free_names(g) & bound:
+                    raise NotInlinable("closure variable shadowed at the call site")
         n = next(self.counter)
         prefix = f"_inl{n}_"
         a = g.node.args
@@ -1146,6 +1220,9 @@ class Inliner:
                         self.log.append(f"not inlined {c.func.qualname} in {f.qualname}: {e}")
                         return None
                     use = ast.Name(id=tmp.id, ctx=ast.Load())
+                    last = pre[-1] if pre else None
+                    if isinstance(last, ast.Assign) and len(last.targets) == 1 and isinstance(last.targets[0], ast.Name) and last.targets[0].id == tmp.id:
+                        use, pre = last.value, pre[:-1]
                     st.test = ast.copy_location(ast.UnaryOp(op=ast.Not(), operand=use) if neg else use, st.test)
                     ast.fix_missing_locations(st)
                     return pre + [st]
@@ -1172,6 +1249,13 @@ class Inliner:
                 ast.fix_missing_locations(st)
                 return pre + [st]
             return None
+        if isinstance(st, (ast.Assign, ast.AnnAssign, ast.Expr, ast.Return)) and getattr(st, "value", None) is not None:
+            # the right-hand side is evaluated before any target
+            v_ = st.value.value if isinstance(st.value, ast.Await) else st.value
+            if isinstance(v_, ast.Call):
+                hoisted = self._hoist_argument(f, st, v_, cands)
+                if hoisted is not None:
+                    return hoisted
         mode, target, value = None, None, None
         if isinstance(st, ast.Expr):
             mode, value = "expr", st.value
@@ -1203,6 +1287,45 @@ class Inliner:
             self.log.append(f"not inlined {g.qualname} in {f.qualname}: {e}")
             return None
 
+    def _hoist_argument(self, f: FuncInfo, st, call: ast.Call, cands):
+        """`x = f(a, **helper(b))`: when everything the call evaluates before the helper call is
+        a plain name / attribute chain, the helper's body can run in front of the statement."""
+        if isinstance(call.func, ast.Attribute) and not _simple(call.func.value):
+            return None
+        if not isinstance(call.func, (ast.Attribute, ast.Name)):
+            return None
+        slots = [(call.args, i, a.value if isinstance(a, ast.Starred) else a, isinstance(a, ast.Starred)) for i, a in enumerate(call.args)]
+        slots += [(call.keywords, i, k.value, k.arg is None) for i, k in enumerate(call.keywords)]
+        for seq, i, expr, starred in slots:
+            if _simple(expr):
+                if starred:
+                    return None  # unpacking iterates the object: not something to reorder with
+                continue
+            if not isinstance(expr, ast.Call):
+                return None
+            c = self.a.callee(f, expr)
+            if c.kind != "func" or id(c.func) not in cands or id(c.func) in getattr(self, "gen_cands", {}) or c.func is f or c.func.is_async:
+                return None
+            if isinstance(expr.func, ast.Attribute) and not _simple(expr.func.value):
+                return None
+            tmp = ast.Name(id=f"_inl{next(self.counter)}_arg", ctx=ast.Store())
+            try:
+                pre = self._expand(f, st, expr, False, c.func, "assign", tmp)
+            except NotInlinable as e:
+                self.log.append(f"not inlined {c.func.qualname} in {f.qualname}: {e}")
+                return None
+            use = ast.copy_location(ast.Name(id=tmp.id, ctx=ast.Load()), expr)
+            if seq is call.args:
+                if isinstance(call.args[i], ast.Starred):
+                    call.args[i].value = use
+                else:
+                    call.args[i] = use
+            else:
+                call.keywords[i].value = use
+            ast.fix_missing_locations(st)
+            return pre + [st]
+        return None
+
     def _remove_dead_helpers(self, cands) -> None:
         # a helper is dead when no call to it is left anywhere
         names_called: set = set()
@@ -1216,7 +1339,7 @@ class Inliner:
         for g in cands.values():
             if g.name in names_called:
                 continue
-            owner_body = g.cls.node.body if g.cls is not None else g.module.tree.body
+            owner_body = g.parent.node.body if g.parent is not None else g.cls.node.body if g.cls is not None else g.module.tree.body
             if g.node in owner_body:
                 owner_body.remove(g.node)
                 if not owner_body:
